@@ -127,8 +127,7 @@ func runC05(c *core.Ctx) {
 		}
 		for i, cs := range sites {
 			nSites++
-			a := c.E.Analyze(cs.Fn)
-			facts := a.FactsAt(cs.Instr)
+			facts := cs.Facts(c)
 			inst := fmt.Sprintf("%s.%s|%s#%d", s.runner, s.method, s.callee, i+1)
 			for _, r := range reqs {
 				rule := "C05-R2"
@@ -147,7 +146,7 @@ func runC05(c *core.Ctx) {
 				c.Undischarged("C05-R2", inst+"|sig-arg", "argument list changed")
 				continue
 			}
-			sn := a.D.D(args[s.sigArg])
+			sn := cs.Arg(c, s.sigArg)
 			hasRec := false
 			for _, l := range sn.Calls() {
 				if l == "ssv/protocol/v2/ssv/runner.State.ReconstructBeaconSig" {
@@ -158,7 +157,7 @@ func runC05(c *core.Ctx) {
 				"signature argument slices back to ReconstructBeaconSig: "+clip(sn.String()),
 				"the signature handed to the beacon node does not come from ReconstructBeaconSig: "+clip(sn.String()))
 			if s.decidedObject {
-				on := a.D.D(args[0])
+				on := cs.Arg(c, 0)
 				str := on.String()
 				okObj := strings.Contains(str, "p0.BaseRunner.State.DecidedValue") && !strings.Contains(str, "StartingDuty")
 				bad := ""
